@@ -11,7 +11,7 @@ func init() {
 		ID:          "C19",
 		Level:       "other",
 		Run:         c19,
-		Explanation: "All four clauses of the property are control-flow facts of http/proxy_server.go and are decided on every path of the SSA control-flow graph: (1) the upstream application is reached only through proxyToTarget, which is called only from the three dispatch functions; (2) request classification: passthrough only under isPassthrough, serveRead only for GET/HEAD not matching always-forward (decided by path enumeration with per-path phi resolution of the isReadOnly boolean), everything else serveNonRead; (3) in serveNonRead the upstream call is dominated by the isPrimary result being true, the no-primary branch answers 503, the replica branch only sets fly-replay; (4) in serveRead the upstream call is dominated by txid==0, no database, or leaving the wait loop through pos.TXID >= txid with txid originating from the __txid cookie, and the time-out branch cannot reach it; (5) the cookie value is a position read after RoundTrip returned, only for non-passthrough write requests.",
+		Explanation: "All four clauses of the property are control-flow facts of http/proxy_server.go and are decided on every path of the SSA control-flow graph: (1) the upstream application is reached only through proxyToTarget, which is called only from the three dispatch functions; (2) request classification: passthrough only under isPassthrough, serveRead only for GET/HEAD not matching always-forward (decided by path enumeration with per-path phi resolution of the isReadOnly boolean), everything else serveNonRead; (3) in serveNonRead the upstream call is dominated by the isPrimary result being true, the no-primary branch answers 503, the replica branch only sets fly-replay; (4) in serveRead the upstream call is dominated by txid==0, no database, or leaving the wait loop through pos.TXID >= txid with txid originating from the __txid cookie, and the time-out branch cannot reach it; (5) the cookie value is a position read after RoundTrip returned, only for non-passthrough write requests. Classification patterns are matched against the request path only; after the transaction-ID cookie was set the application's response headers are only appended, never assigned or deleted.",
 		NotDecided:  "that the application's write has committed (and reached the tracked database) by the time it answers; real network timing.",
 		Assumptions: []string{"net/http delivers each request to ProxyServer.serveHTTP exactly once", "go/ssa faithfully represents the source"},
 	})
